@@ -5,7 +5,7 @@ use std::{
 
 use super::{Stringifier, Stringify};
 use crate::{
-    escape::escape_html_body,
+    escape::{escape_html_body, escape_html_body_before_binding},
     parse::{
         expr::Expression,
         tag::{
@@ -723,9 +723,25 @@ impl Stringify for Value {
                     start_location: &Range<Position>,
                     end_location: &Range<Position>,
                 ) -> FmtResult {
+                    // only a chain made of static segments and `{{ ... }}` segments is mixed text;
+                    // a user-written `'a' + b` must stay an expression (it renders `null` differently)
+                    fn is_text_shaped(expr: &Expression) -> bool {
+                        match expr {
+                            Expression::LitStr { .. }
+                            | Expression::ToStringWithoutUndefined { .. } => true,
+                            Expression::Plus { left, right, .. } => {
+                                is_text_shaped(left) && is_text_shaped(right)
+                            }
+                            _ => false,
+                        }
+                    }
                     match expr {
                         Expression::LitStr { value, location } => {
-                            stringifier.write_token(&escape_html_body(value), None, location)?;
+                            stringifier.write_token(
+                                &escape_html_body_before_binding(value),
+                                None,
+                                location,
+                            )?;
                             return Ok(());
                         }
                         Expression::ToStringWithoutUndefined { value, location } => {
@@ -739,18 +755,7 @@ impl Stringify for Value {
                             right,
                             location,
                         } => {
-                            let split = if let Expression::ToStringWithoutUndefined { .. }
-                            | Expression::LitStr { .. } = &**left
-                            {
-                                true
-                            } else if let Expression::ToStringWithoutUndefined { .. }
-                            | Expression::LitStr { .. } = &**right
-                            {
-                                true
-                            } else {
-                                false
-                            };
-                            if split {
+                            if is_text_shaped(left) && is_text_shaped(right) {
                                 split_expression(&left, stringifier, start_location, location)?;
                                 split_expression(&right, stringifier, location, end_location)?;
                                 return Ok(());
